@@ -452,6 +452,7 @@ class Analyzer(Interp):
             if st.bottom:
                 return []
             k = s["k"]
+            self.cur_pos = (fn.name, b, i)
             if k == "assign":
                 p = s["p"]
                 v = self.rvalue(st, frame, s["r"], p["ty"])
